@@ -298,8 +298,8 @@ def _run_law(case, log, probes):
             probes["labels_exhausted"] = 1
         except bm.CaseTooExpensive:
             probes["truncated_designed_bound"] = 1
-    if n_q > 0 and not lab.by_seed and not probes.get("labels_exhausted"):
-        # torchsde answered queries without a single draw through torch.randn(size, generator=...): the randomness
+    if n_q > 0 and not lab.by_seed and lab.foreign == 0 and not probes.get("labels_exhausted"):
+        # torchsde answered queries without a single draw through torch.randn (of any shape): the randomness
         # seam is not engaged (e.g. the library switched to another sampling API). That is a harness limitation to be
         # reported as such (exit 2), never a verdict about the law.
         from ..core import HarnessError
